@@ -327,13 +327,16 @@ theorem C10_result (fuelR fuelL : Nat) (rows : List Row) (apps : AppsCfg) (disk 
 
 /-! ## context names chosen by `module_import` -/
 
-/-- **`module_import` names a module like `glob_read_files` does – partial.**  FULL statement: every candidate
-context name equals the documented name of the candidate file.  It holds for absolute imports and for relative
-imports from a context that is named after its `rel_import_path` (a package `__init__`); it fails for relative
-imports from other members of a package (`C10_import_name_cex`, finding C10-F4). -/
-theorem C10_import_name_partial (self : Name) (rel : Option Path) (i : Imp) (hmod : i.mod ≠ [])
+/-- **`module_import` names a module like `glob_read_files` does** (today's code = /repo with the `fix:` patches
+C11-F1 / C11-F4, flags `relFromPackageNow`, `submodKnowsDirNow`).  Every candidate context name equals the documented
+name of the candidate file: for absolute imports, for relative imports from a package `__init__` (context named after
+its `rel_import_path`) AND – since the repair – for relative imports executed by a plain member of the package (context
+`pkg.s`, `rel_import_path` = the package directory): the sibling-relative exception of the pre-fix code
+(`C10_regress_import_name_prefix`, finding C10-F4) is gone. -/
+theorem C10_import_name (self : Name) (rel : Option Path) (i : Imp) (hmod : i.mod ≠ [])
     (hinit : i.mod.getLast? ≠ some "__init__")
-    (hok : i.level = 0 ∨ ∃ r, rel = some r ∧ self = modParts r ∧ modParts r ≠ [])
+    (hok : i.level = 0 ∨ ∃ r, rel = some r ∧ modParts r ≠ [] ∧
+      (self = modParts r ∨ (self ≠ modParts r ∧ self.dropLast = modParts r)))
     (cands : List Cand) (hc : candidates self rel i = some cands) :
     ∀ c ∈ cands, c.name = docName c.file := by
   have hlast : ∀ q : Path, (q ++ i.mod).getLast? ≠ some "__init__" := by
@@ -354,12 +357,16 @@ theorem C10_import_name_partial (self : Name) (rel : Option Path) (i : Imp) (hmo
       (q ++ i.mod) = docName (q ++ i.mod) := by
     intro q hq
     exact ⟨(docName_init _ (by simp [hmod])).symm, (docName_plain _ (hlen q hq) (hlast q)).symm⟩
-  unfold candidates at hc
+  unfold candidates candidatesCfg at hc
   by_cases hl : 0 < i.level
   · simp only [hl, if_true] at hc
-    rcases hok with h0 | ⟨r, rfl, rfl, hne⟩
+    rcases hok with h0 | ⟨r, rfl, hne, hself⟩
     · omega
-    · simp only at hc
+    · have hn0 : (if (relFromPackageNow && !(self == modParts r)) = true then self.dropLast else self) = modParts r := by
+        rcases hself with rfl | ⟨h1, h2⟩
+        · simp
+        · simp [relFromPackageNow, h1, h2]
+      simp only [hn0] at hc
       split at hc
       · simp at hc
       · rename_i p n hcl
@@ -398,12 +405,29 @@ theorem C10_import_name_partial (self : Name) (rel : Option Path) (i : Imp) (hmo
     · exact gm.1
     · exact gm.2
 
-/-- **Counterexample (finding C10-F4)**: `from . import t` executed by `modules/p/s.py` (context `modules.p.s`, loaded
-by the package with `rel_import_path = "modules/p"`) looks for `modules/p/t.py` but calls the context `modules.p.s.t`. -/
-theorem C10_import_name_cex :
-    ∃ c ∈ (candidates ["modules", "p", "s"] (some ["modules", "p"]) ⟨1, ["t"]⟩).getD [],
-      c.file = ["modules", "p", "t"] ∧ c.name = ["modules", "p", "s", "t"] ∧ c.name ≠ docName c.file :=
-  ⟨⟨["modules", "p", "s", "t"], ["modules", "p", "t"], some ["modules", "p"]⟩, by decide, rfl, rfl, by decide⟩
+/-- **Regression witness (finding C10-F4, fixed by C11-F1).**  `from . import t` executed by `modules/p/s.py` (context
+`modules.p.s`, loaded by the package with `rel_import_path = "modules/p"`) looks for `modules/p/t.py`: the PRE-FIX code
+called the context `modules.p.s.t` (not the documented name – the next reload unloaded it as 'not present in current
+files'); today's code calls it `modules.p.t`. -/
+theorem C10_regress_import_name_prefix :
+    (∃ c ∈ (candidatesCfg false false ["modules", "p", "s"] (some ["modules", "p"]) ⟨1, ["t"]⟩).getD [],
+      c.file = ["modules", "p", "t"] ∧ c.name = ["modules", "p", "s", "t"] ∧ c.name ≠ docName c.file) ∧
+    (∀ c ∈ (candidates ["modules", "p", "s"] (some ["modules", "p"]) ⟨1, ["t"]⟩).getD [], c.name = ["modules", "p", "t"]) :=
+  ⟨⟨⟨["modules", "p", "s", "t"], ["modules", "p", "t"], some ["modules", "p"]⟩, by decide, rfl, rfl, by decide⟩, by decide⟩
+
+/-- **Regression witness (C11-F4).**  `import p.s` from a script: the PRE-FIX code created the context of
+`modules/p/s.py` without `rel_import_path` (so `from . import t` inside it raised ImportError); today it gets the
+package directory `modules/p`. -/
+theorem C10_regress_submodule_rel_path :
+    ((candidatesCfg false false ["file", "a"] none ⟨0, ["p", "s"]⟩).getD []).map (·.relImport) =
+        [some ["modules", "p", "s"], none] ∧
+    ((candidates ["file", "a"] none ⟨0, ["p", "s"]⟩).getD []).map (·.relImport) =
+        [some ["modules", "p", "s"], some ["modules", "p"]] := by
+  decide
+
+/-- non-vacuity of `C10_import_name` (sibling-relative case) -/
+example : ∃ cands, candidates ["modules", "p", "s"] (some ["modules", "p"]) ⟨1, ["t"]⟩ = some cands ∧ cands ≠ [] :=
+  ⟨_, rfl, by decide⟩
 
 /-! ## two more witnesses about the result -/
 
@@ -425,7 +449,7 @@ theorem C10_cyclic_cex (fuel : Nat) :
         unfold loadCtx
         simp only [cexF3M, cexF3Prog]
         unfold runImps
-        simp only [candidates]
+        simp only [candidates, candidatesCfg]
         simp only [cexF3N] at this
         simp [h1.2, this, cexF3_ffN]
       · have h1 := noMN_filter hst ["modules", "n"] (st.events ++ [(["modules", "n"], 3)])
@@ -433,7 +457,7 @@ theorem C10_cyclic_cex (fuel : Nat) :
         unfold loadCtx
         simp only [cexF3N, cexF3Prog]
         unfold runImps
-        simp only [candidates]
+        simp only [candidates, candidatesCfg]
         simp only [cexF3M] at this
         simp [h1.1, this, cexF3_ffM]
   cases fuel with
@@ -445,7 +469,7 @@ theorem C10_cyclic_cex (fuel : Nat) :
     unfold loadCtx
     simp only [cexF3A, cexF3Prog]
     unfold runImps
-    simp only [candidates]
+    simp only [candidates, candidatesCfg]
     simp only [cexF3M] at this
     simp [loadedModule, this, cexF3_ffM]
 
